@@ -20,10 +20,7 @@ pub fn unsigned_kernel_model<'a>(
     remaining: &'a [u8],
     ty: FieldDataType,
     len: u16,
-) -> nom::IResult<&'a [u8], FieldValue>
-where
-    'a: 'a,
-{
+) -> nom::IResult<&'a [u8], FieldValue> {
     assert!(ty == FieldDataType::UnsignedDataNumber);
     assert!(len <= 7);
     let fail = |k| Err(nom::Err::Error(nom::error::Error::new(remaining, k)));
